@@ -41,7 +41,7 @@ int __lsan_do_recoverable_leak_check(void);
 #define NSCAN 8
 #define NBUF 16
 #define NIMG 6
-#define NINCL 64
+#define NINCL 256
 
 typedef struct
 {
